@@ -152,7 +152,7 @@ class World:
         dawgie.db.open = lambda: self.calls.append('db.open')
         dawgie.db.close = lambda: self.calls.append('db.close')
         dawgie.db.reopen = lambda: False
-        dawgie.db.archive = lambda done: (self.calls.append('db.archive'), done())[1]
+        dawgie.db.archive = self._db_archive
         dawgie.db.metrics = lambda *a: []
         dawgie.db.targets = lambda *a, **k: []
         dawgie.db.versions = lambda: ({}, {}, {}, {})
@@ -311,8 +311,18 @@ class World:
         return (f.state, f.transitioning, f._FSM__prior, f.priority, f.wait_on_crew.is_set(), f.wait_on_doing.is_set(), f.wait_on_todo.is_set(),
                 tuple(j.name for j in self.threads.pending), len(farm._workers), farm.ARCHIVE, len(self.spawned))
 
+    def _db_archive(self, done):
+        """the back end reports the end of the archive later (the PostgreSQL back end spawns pg_dump and
+        calls `done` when that process ends; the shelve one calls it last thing): a background step of its own"""
+        self.calls.append('db.archive')
+
+        def _archive_dump():
+            return None
+
+        self.threads.deferToThread(_archive_dump).addCallback(lambda _r: done())
+
     def lifecycle_jobs(self):
-        return [j for j in self.threads.pending if j.name in ('_pipeline', '_reload', '_archive', '_navel_gaze')]
+        return [j for j in self.threads.pending if j.name in ('_pipeline', '_reload', '_archive', '_archive_dump', '_navel_gaze')]
 
     def pollers(self):
         return [j for j in self.threads.pending if j.name.startswith('is_')]
